@@ -14,8 +14,8 @@ use crate::rng::Rng;
 use crate::Args;
 use redis_sim::replication::lattice::ReplicaId;
 use redis_sim::replication::state::ReplicationDelta;
-use redis_sim::streaming::wal_store::{InMemoryWalStore, WalFileWriter, WalStore};
-use redis_sim::streaming::{WalEntry, WalReader, WalRotator};
+use redis_sim::streaming::wal_store::{InMemoryWalStore, LocalWalStore, WalError, WalFileReader, WalFileWriter, WalStore};
+use redis_sim::streaming::{WalEntry, WalReader, WalRotator, WalWriter};
 use serde_json::json;
 use std::collections::BTreeMap;
 use std::panic::{catch_unwind, AssertUnwindSafe};
@@ -298,8 +298,21 @@ fn build(c: &Case) -> (InMemoryWalStore, Option<WalRotator<InMemoryWalStore>>, V
     }
 }
 
-fn recover(rot: &WalRotator<InMemoryWalStore>) -> Option<Vec<WalEntry>> {
-    catch_unwind(AssertUnwindSafe(|| rot.recover_all_entries().unwrap())).ok()
+trait Recoverable {
+    fn rec(&self) -> Vec<WalEntry>;
+}
+impl Recoverable for WalRotator<InMemoryWalStore> {
+    fn rec(&self) -> Vec<WalEntry> {
+        self.recover_all_entries().unwrap()
+    }
+}
+impl<'a> Recoverable for RecoverFn<'a> {
+    fn rec(&self) -> Vec<WalEntry> {
+        (self.0)()
+    }
+}
+fn recover<R: Recoverable>(rot: &R) -> Option<Vec<WalEntry>> {
+    catch_unwind(AssertUnwindSafe(|| rot.rec())).ok()
 }
 
 struct Ctx<'a> {
@@ -373,6 +386,168 @@ impl<'a> Ctx<'a> {
         }
     }
 }
+
+
+/// accessors and secondary entry points the rotator-level ops do not reach: `WalEntry::validate` /
+/// `disk_size`, `WalWriter::{entry_count,max_timestamp,size}`, `WalReader::{sequence,entries_after}`
+fn accessor_ops(c: &Case, store: &InMemoryWalStore, img: &Image, out: &mut Out) {
+    for e in c.entries.iter().chain(c.pre.iter().flat_map(|f| f.entries.iter())) {
+        out.op(format!("VE {}", show_entry(e)), format!("valid={} size={}", e.validate() as u8, e.disk_size()));
+        out.count("op:validate+disk_size");
+    }
+    {
+        let st = InMemoryWalStore::new();
+        let mut w = WalWriter::new(st.create("w").unwrap(), 7).unwrap();
+        for e in &c.entries {
+            w.append_entry(e).unwrap();
+        }
+        let _ = w.sync();
+        let ents: Vec<String> = c.entries.iter().map(show_entry).collect();
+        out.op(format!("WW {} {}", c.entries.len(), ents.join(" ")), format!("count {} max_ts {} size {}", w.entry_count(), w.max_timestamp(), w.size()));
+        if w.sequence() != 7 {
+            out.violation("C10:writer:sequence", "WalWriter::sequence() is not the sequence it was created with", json!({}));
+        }
+        out.count("op:wal-writer-accessors");
+    }
+    for (name, bytes) in img {
+        let mut ths: Vec<u64> = vec![0, u64::MAX];
+        for e in &c.entries {
+            ths.push(e.timestamp);
+            ths.push(e.timestamp.wrapping_add(1));
+        }
+        ths.sort();
+        ths.dedup();
+        for t in ths {
+            let r = store.open_read(name).ok().and_then(|r| WalReader::open(r).ok());
+            let imp = match r {
+                None => "err".to_string(),
+                Some(rd) => format!("seq {} | {}", rd.sequence(), show_entries(&rd.entries_after(t))),
+            };
+            out.op(format!("RS {} {}", hex(bytes), t), imp);
+            out.count("op:reader:sequence+entries_after");
+        }
+    }
+}
+
+/// THE PRODUCTION STORE: the same directory and appends through `LocalWalStore` (real files under the
+/// run directory, `sync_all`), compared with the model like the in-memory runs: directory listing and
+/// file bytes after the appends, recovery, recovery of a few cut files, `truncate_before` with and
+/// without an open writer, a restarted rotator; `exists`, `open_read` of a missing file, `delete`.
+fn local_store_case(c: &Case, rng: &mut Rng, out: &mut Out, dir: &std::path::Path) {
+    let usable = |n: &str| !n.is_empty() && !n.contains('/') && !n.contains('\0') && n != "." && n != "..";
+    let pre: Vec<&PreFile> = c.pre.iter().filter(|f| usable(&f.name)).collect();
+    let _ = std::fs::remove_dir_all(dir);
+    let local = match LocalWalStore::new(dir.to_path_buf()) {
+        Ok(s) => s,
+        Err(e) => {
+            out.violation("C10:local-store:cannot-create-directory", &format!("LocalWalStore::new failed: {}", e), json!({"dir": dir.display().to_string()}));
+            return;
+        }
+    };
+    let read = |n: &str| -> Vec<u8> { local.open_read(n).and_then(|mut r| r.read_all()).unwrap_or_default() };
+    let image = || -> Image { local.list().unwrap().iter().map(|n| (n.clone(), read(n))).collect() };
+    for f in &pre {
+        let mut w = local.create(&f.name).unwrap();
+        if !f.bytes.is_empty() {
+            w.append(&f.bytes).unwrap();
+        }
+        w.sync().unwrap();
+        if w.size() != f.bytes.len() as u64 {
+            out.violation("C10:local-store:size", "LocalWalWriter::size() differs from the bytes appended", json!({"name": f.name}));
+        }
+    }
+    let pre_img = image();
+    out.op(format!("I {}", show_image(&pre_img)), format!("ok {}", pre_img.len()));
+    let ents: Vec<String> = c.entries.iter().map(show_entry).collect();
+    let built = catch_unwind(AssertUnwindSafe(|| {
+        let mut rot = WalRotator::new(local.clone(), c.max).unwrap();
+        for e in &c.entries {
+            rot.append(e).unwrap();
+        }
+        rot.sync().unwrap();
+        rot
+    }));
+    let mut rot = match built {
+        Ok(r) => r,
+        Err(_) => {
+            out.op(format!("NA {} {} {}", c.max, c.entries.len(), ents.join(" ")), "crash".into());
+            let _ = std::fs::remove_dir_all(dir);
+            return;
+        }
+    };
+    let img = image();
+    let cur = if c.entries.is_empty() { "-".to_string() } else { hex(wal_name(rot.current_sequence()).as_bytes()) };
+    out.op(format!("NA {} {} {}", c.max, c.entries.len(), ents.join(" ")), format!("{} cur={}", show_image(&img), cur));
+    out.op(format!("I {}", show_image(&img)), format!("ok {}", img.len()));
+    out.count("local-store:case");
+    out.op("R".into(), recover(&rot_as_any(&rot)).map(|r| show_entries(&r)).unwrap_or("crash".into()));
+    // exists / open_read of a missing file
+    for (n, _) in &img {
+        if !local.exists(n).unwrap_or(false) {
+            out.violation("C10:local-store:exists", "LocalWalStore::exists is false for a listed file", json!({"name": n}));
+        }
+    }
+    if local.exists("wal-no-such-file.wal").unwrap_or(true) {
+        out.violation("C10:local-store:exists", "LocalWalStore::exists is true for a missing file", json!({}));
+    }
+    if !matches!(local.open_read("wal-no-such-file.wal"), Err(WalError::NotFound(_))) {
+        out.violation("C10:local-store:open-missing", "open_read of a missing file is not NotFound", json!({}));
+    }
+    // a few cut files (written behind the store's back, as a crash would leave them)
+    for (li, (n, b)) in img.iter().enumerate() {
+        if parse_seq(n).is_none() {
+            continue;
+        }
+        for len in [0usize, 15, 16, b.len().saturating_sub(1), rng.below(b.len() as u64 + 1) as usize] {
+            if len > b.len() {
+                continue;
+            }
+            std::fs::write(dir.join(n), &b[..len]).unwrap();
+            out.op(format!("t {} {}", li, len), recover(&rot_as_any(&rot)).map(|r| show_entries(&r)).unwrap_or("crash".into()));
+            out.count("local-store:damage:truncate");
+        }
+        std::fs::write(dir.join(n), b).unwrap();
+    }
+    // truncate_before with the open writer, then after a restart
+    let mut ths: Vec<u64> = c.entries.iter().map(|e| e.timestamp).collect();
+    ths.push(0);
+    ths.sort();
+    ths.dedup();
+    let t = *rng.pick(&ths);
+    let active = if c.entries.is_empty() { None } else { Some(wal_name(rot.current_sequence())) };
+    let r = catch_unwind(AssertUnwindSafe(|| rot.truncate_before(t)));
+    let remain: Vec<String> = local.list().unwrap();
+    out.op(
+        format!("T {} {}", t, active.as_ref().map(|a| hex(a.as_bytes())).unwrap_or("-".into())),
+        match &r { Ok(Ok(d)) => format!("deleted={} remain {}", d, remain.iter().map(|n| hex(n.as_bytes())).collect::<Vec<_>>().join(" ")), Ok(Err(_)) => "err".into(), Err(_) => "crash".into() },
+    );
+    out.count("local-store:truncate_before");
+    // restart over what is left
+    drop(rot);
+    let img2 = image();
+    out.op(format!("I {}", show_image(&img2)), format!("ok {}", img2.len()));
+    if let Ok(mut rot2) = WalRotator::new(local.clone(), c.max) {
+        out.op("R".into(), recover(&rot_as_any(&rot2)).map(|r| show_entries(&r)).unwrap_or("crash".into()));
+        let r = catch_unwind(AssertUnwindSafe(|| rot2.truncate_before(u64::MAX)));
+        let remain: Vec<String> = local.list().unwrap();
+        out.op(
+            format!("T {} -", u64::MAX),
+            match &r { Ok(Ok(d)) => format!("deleted={} remain {}", d, remain.iter().map(|n| hex(n.as_bytes())).collect::<Vec<_>>().join(" ")), Ok(Err(_)) => "err".into(), Err(_) => "crash".into() },
+        );
+        // delete of a missing file is not an error
+        if local.delete("wal-no-such-file.wal").is_err() {
+            out.violation("C10:local-store:delete-missing", "deleting a missing file is an error", json!({}));
+        }
+    }
+    let _ = std::fs::remove_dir_all(dir);
+}
+
+/// `recover()` takes the in-memory rotator type; the local one goes through the same code
+fn rot_as_any<S: WalStore>(rot: &WalRotator<S>) -> RecoverFn<'_> {
+    RecoverFn(Box::new(move || rot.recover_all_entries().unwrap()))
+}
+
+struct RecoverFn<'a>(Box<dyn Fn() -> Vec<WalEntry> + 'a>);
 
 fn run_case(c: &Case, rng: &mut Rng, out: &mut Out, thorough: bool, fixed: Option<&str>) {
     let ents: Vec<String> = c.entries.iter().map(show_entry).collect();
@@ -458,6 +633,8 @@ fn run_case(c: &Case, rng: &mut Rng, out: &mut Out, thorough: bool, fixed: Optio
     // intact recovery
     let rec = recover(&rot);
     out.op("R".into(), rec.as_ref().map(|r| show_entries(r)).unwrap_or("crash".into()));
+    accessor_ops(c, &store, &img, out);
+    out.op(format!("I {}", show_image(&img)), format!("ok {}", img.len()));
     {
         // sanity oracle: an intact file reads back what was appended up to the first entry
         // whose stored checksum is wrong (bit-identical, in order)
@@ -768,6 +945,12 @@ pub fn run(a: &Args) {
     let mut rng = Rng::new(a.seed);
     let thorough = a.tier == "thorough";
     out.op(format!("V {}", crate::cfg::CODE_WAL_FORMAT), format!("format {}", crate::cfg::CODE_WAL_FORMAT));
+    crate::walcov::report(&mut out, "C10");
+    {
+        // on-disk constants: the crate's against the model's
+        use redis_sim::streaming::wal::{WAL_ENTRY_OVERHEAD, WAL_HEADER_SIZE, WAL_MAGIC, WAL_VERSION};
+        out.op("FMT".into(), format!("magic {} version {} header {} overhead {}", hex(&WAL_MAGIC), WAL_VERSION, WAL_HEADER_SIZE, WAL_ENTRY_OVERHEAD));
+    }
     // differential test of the Lean CRC-32 against crc32fast
     for i in 0..40u64 {
         let len = if i < 4 { i } else { rng.below(80) };
@@ -836,9 +1019,12 @@ pub fn run(a: &Args) {
             }
         }
     }
+    let local_dir = a.out.join("c10-local-wal");
     for _ in 0..a.n {
         let c = gen_case(&mut rng, &mut out);
         run_case(&c, &mut rng, &mut out, thorough, None);
+        local_store_case(&c, &mut rng, &mut out, &local_dir);
     }
+    let _ = std::fs::remove_dir_all(&local_dir);
     out.finish("case = (rotation threshold, entry sequence with generated stamps/payloads) written through the real WalRotator; every truncation length of every file, sampled (thorough: all) bit flips and 0x00/0xFF substitutions, zero-filled and random tails, truncate_before for every stamp-adjacent threshold with and without an active writer, recover_entries_after; distinct by (threshold, entries); non-trivial iff ≥ 2 entries");
 }
